@@ -1531,7 +1531,26 @@ fn run_case(ctx: &mut Ctx, env: &Env, stage: &str, idx: u64, pending: &mut Vec<P
             if (elapsed_ms as f64) < t {
                 ctx.out.fail(idx, "premature-timeout", json!({"elapsed_ms": elapsed_ms, "timeout_ms": t}), replay);
             } else {
-                ctx.out.inconclusive(idx, "child did not finish within the (huge) timeout: machine too slow", json!({"elapsed_ms": elapsed_ms, "timeout_ms": t}));
+                // The helper needs milliseconds. Once may be a machine that stood still; twice in a
+                // row (at least a minute in total) the child is waiting for something it was
+                // configured not to wait for, e.g. the end of its standard input.
+                let policy2 = HostPolicy { allow_process: case.allow, process: case.caps };
+                let t1 = Instant::now();
+                let again = util::guarded(|| pipeline::run_source_with_policy(&src, RunCfg::default(), policy2));
+                let elapsed2 = t1.elapsed().as_millis() as u64;
+                let stdin_kind = match &m.stdin {
+                    Stdin::Text(t) if t.is_empty() => "empty-text",
+                    Stdin::Text(_) => "text",
+                    Stdin::Null => "null",
+                    Stdin::Inherit => "inherit",
+                    Stdin::Default => "default",
+                };
+                match again {
+                    Ok(r2) if r2.ending == env.e.timeout && (elapsed2 as f64) >= t => {
+                        ctx.out.fail(idx, &format!("helper-never-finished|stdin={stdin_kind}"), json!({"elapsed_ms": [elapsed_ms, elapsed2], "timeout_ms": t}), replay);
+                    }
+                    _ => ctx.out.inconclusive(idx, "child did not finish within the (huge) timeout once: machine too slow", json!({"elapsed_ms": elapsed_ms, "timeout_ms": t})),
+                }
             }
         } else if ending == env.e.spawn {
             ctx.out.inconclusive(idx, "helper could not be started", json!({"runtime": format!("{:?}", real.runtime.first()), "spawned": spawned}));
